@@ -181,14 +181,28 @@ def loopless_solution(
         fluxes = sol.fluxes
         opt = sol.objective_value
     else:
-        opt = model.slim_optimize()
+        # The objective value of the given flux distribution (which does not
+        # need to be an optimum of the model).
+        variables = [
+            var
+            for rxn in model.reactions
+            for var in (rxn.forward_variable, rxn.reverse_variable)
+        ]
+        coefficients = model.objective.get_linear_coefficients(variables)
+        opt = sum(
+            coefficients[rxn.forward_variable] * max(fluxes[rxn.id], 0)
+            + coefficients[rxn.reverse_variable] * max(-fluxes[rxn.id], 0)
+            for rxn in model.reactions
+        )
 
     with model:
         prob = model.problem
-        # Fix the objective
+        # Fix the objective to the value of the starting solution, whatever the
+        # objective direction.
         loopless_obj_constraint = prob.Constraint(
             model.objective.expression,
             lb=opt,
+            ub=opt,
             name="loopless_obj_constraint",
         )
         model.add_cons_vars([loopless_obj_constraint])
